@@ -123,7 +123,7 @@ func streamC13(env *runEnv) {
 	r := rand.New(rand.NewSource(env.seed))
 	idp := newFakeIdP()
 	defer idp.close()
-	fails := []string{"refuse", "noidtoken", "badsig", "wrongiss", "wrongaud", "expired", "garbage", "noname"}
+	fails := []string{"refuse", "noidtoken", "badsig", "wrongiss", "wrongaud", "wrongaudazp", "expired", "garbage", "noname"}
 	for si, store := range []string{"cookie", "file"} {
 		g := startOidcGateway(env, idp, store, si)
 		n := 0
